@@ -35,7 +35,7 @@ Proof.
   intros zt osort st cmds sc. unfold go_step. destruct (parse_go_command cmds); try reflexivity.
   destruct (generate_moves zt (ss_board st) AllMoves); try reflexivity.
   destruct (get_best_move zt osort (sc_k sc) (sc_fuel sc) (ss_board st) (ss_table st)) as [[ev s]| |]; try reflexivity.
-  destruct (nth_error (sends_of ev) (Nat.min (sc_pick sc) (length (sends_of ev) - 1))) as [bb|]; try reflexivity.
+  destruct (nth_error (sends_of ev) (length (sends_of ev) - 1)) as [bb|]; try reflexivity.
   destruct (best_move_text bb); reflexivity.
 Qed.
 
